@@ -238,7 +238,10 @@ func RunToolScenario(s *ToolScenario) (vs []ToolViolation, harness string) {
 		}
 		if g != w {
 			cls := "asked-for-known-state"
-			if i >= len(o.prompts) || (strings.HasPrefix(w, "mem") && !strings.HasPrefix(g, "mem")) {
+			switch {
+			case strings.HasPrefix(w, "reg") && g != w:
+				cls = "unknown-register-not-asked-in-a-later-emulation"
+			case i >= len(o.prompts) || (strings.HasPrefix(w, "mem") && !strings.HasPrefix(g, "mem")):
 				cls = "unknown-memory-not-asked-in-a-later-emulation"
 			}
 			vs = append(vs, ToolViolation{"C04", "tool/" + cls, fmt.Sprintf("prompt %d of the run: the real binary asked %s, a tool whose every emulation starts from the program image asks %s (all prompts: %v; expected %v)", i, g, w, o.prompts, want)})
